@@ -196,8 +196,10 @@ def emit_tcases(path, items, helpers):
     for case, tobs, eobs in items:
         ctors = C.clist(f"({s}, {cname(n)}, {craw(md)})" for s, n, md in case["ctors"])
         obs = C.clist(ctobs(o) for o in tobs)
-        evs = C.clist(f"({i}, {'None' if ts is None else '(Some ' + helpers.cts(ts) + ')'}, {helpers.ccontent(c)}, {C.cbool(chk)}, {C.cbool(o is True)})"
-                      for (i, ts, c, chk), o in zip(case["events"], eobs) if o is True or o is False)
+        # an observation that is neither acceptance nor EventError gets an index no type has: always a mismatch
+        evs = C.clist(f"({i if (o is True or o is False) else 999}, {'None' if ts is None else '(Some ' + helpers.cts(ts) + ')'}, "
+                      f"{helpers.ccontent(c)}, {C.cbool(chk)}, {C.cbool(o is True)})"
+                      for (i, ts, c, chk), o in zip(case["events"], eobs))
         rows.append(f"mkTCase {ctors} {obs} {evs}")
     path.write_text("\n".join(["From Coq Require Import ZArith List.", "From PV Require Import PubSub.Model PubSub.TypeModel.",
                                "Import ListNotations.", "Definition cases : list tcase := [", ";\n".join(rows), "].",
